@@ -766,10 +766,12 @@ class map_async(Stream):
 
         Stream.__init__(self, upstream, stream_name=stream_name, ensure_io_loop=True)
         self.work_task = None
+        self._last_worker = None
 
     def _create_work_task(self) -> Tuple[asyncio.Event, asyncio.Task[None]]:
         stop_work = asyncio.Event()
-        work_task = self._create_task(self.work_callback(stop_work))
+        work_task = self._create_task(self.work_callback(stop_work, self._last_worker))
+        self._last_worker = work_task
         return stop_work, work_task
 
     def start(self):
@@ -809,7 +811,12 @@ class map_async(Stream):
             return coro
         return self.loop.asyncio_loop.create_task(coro)
 
-    async def work_callback(self, stop_work: asyncio.Event):
+    async def work_callback(self, stop_work: asyncio.Event, previous=None):
+        if previous is not None and not previous.done():
+            # one worker at a time: a worker retired by start() or stop() first
+            # finishes the job it has in hand (or is waiting for), otherwise
+            # its successor could emit later results before it
+            await asyncio.wait([previous])
         while not stop_work.is_set():
             task, metadata = await self.work_queue.get()
             self.work_queue.task_done()
